@@ -369,6 +369,16 @@ def builtinCall (s : Store) (code : Nat) (ps : List Val) : Option (Store × Val)
   | 9, [.int x, .int y] => some (s, .int (x - y))               -- sub::{x-y}        (integers)
   | 10, [.str x, .str y] => some (s, .str (x ++ y))             -- cat::{x,y}        (strings)
   | 11, [.int x, .int y, .int z] => some (s, .list [.int x, .int y, .int z])   -- tri::{x,y,z} (integers)
+  | 22, [.str x] =>                                             -- lastc::{x@(#x)-1}  (a computed character)
+    match x.toList.getLast? with
+    | some c => some (s, .chr c.toNat)
+    | Option.none => Option.none
+  | 23, [.str x, .int i] =>                                     -- nth::{x@y}
+    if 0 ≤ i then
+      match x.toList[i.toNat]? with
+      | some c => some (s, .chr c.toNat)
+      | Option.none => Option.none
+    else Option.none
   | _, _ => Option.none
 
 /-- names bound to projections: base function and its argument slots (`none` = open).
@@ -409,7 +419,8 @@ def builtins : Store :=
    ("sub", .fn 2 9), ("cat", .fn 2 10), ("tri", .fn 3 11),
    -- projections: the arity is the number of open slots
    ("dec", .fn 1 12), ("from10", .fn 1 13), ("suf", .fn 1 14), ("pre", .fn 1 15), ("mid", .fn 1 16),
-   ("ends", .fn 2 17), ("lead1", .fn 2 18), ("nest", .fn 1 19), ("nend", .fn 1 20), ("nmid", .fn 1 21)]
+   ("ends", .fn 2 17), ("lead1", .fn 2 18), ("nest", .fn 1 19), ("nend", .fn 1 20), ("nmid", .fn 1 21),
+   ("lastc", .fn 1 22), ("nth", .fn 2 23)]
 
 /-- arity of the function bodies the harness (re)defines by text: `{77}` `{x}` `{x;y}` `{x;y;z}` -/
 def codeArity : Nat → Nat
